@@ -5,6 +5,9 @@
   is quadratic — so for py_gram.lark the real token list stays trusted input.)
 -/
 import Tranp.Model.Lexer
+import Tranp.Model.TextRt
+import Tranp.Generated.GramRules
+import Tranp.Generated.RtWitnesses
 import Tranp.Generated.TokenDef
 import Tranp.Generated.RulesData
 
@@ -22,5 +25,18 @@ def lexAgrees (text : Str) (real : List Engine.Tok) : Bool :=
 
 set_option maxRecDepth 100000 in
 theorem gram_lex : lexAgrees gramLarkText gramLarkTokens = true := by decide +kernel
+
+/-- The transcribed predicates are the regexp terminals of gram_rules(), and they classify every token of gram.lark,
+    py_gram.lark and of the round-trip witnesses exactly as the real `re.fullmatch` did (the dumped `cls` column). -/
+theorem gram_class_agrees :
+    gramRegexps = GramClass.gramRegexpTexts ∧
+    (gramLarkTokens.all fun t => GramClass.gramClass t.str == t.cls) = true ∧
+    (pyGramLarkTokens.all fun t => GramClass.gramClass t.str == t.cls) = true ∧
+    (rtWitnesses.all fun w => w.2.2.all fun t => GramClass.gramClass t.str == t.cls) = true := by
+  decide +kernel
+
+set_option maxRecDepth 100000 in
+/-- lexing the TEXT of gram.lark in Lean gives the dumped real token list, classes included -/
+theorem gram_lex_full : TextRt.lexGram gramLarkText = .ok gramLarkTokens := by decide +kernel
 
 end Tranp.C12Fixed
